@@ -1,12 +1,12 @@
 #!/bin/sh
-# usage: tools/try_seed.sh <mutant-name> <Cxx> <crate> [more Cxx...]
+# usage: [SEED_CFG=--cfg] tools/try_seed.sh <mutant-name> <Cxx> <crate> [more Cxx...]
 # confirm the change independently, then run the property's quick check with the change applied to /repo, then undo.
 name=$1; prop=$2; crate=$3; shift 3
 out=/tmp/mut/$name-out
-python3 /verif/tools/confirm_seed.py $out $crate demo_$name.rs 2>&1 | grep -v "^WARNING"
+python3 /verif/tools/confirm_seed.py $out $crate demo_$name.rs $SEED_CFG 2>&1 | grep -v "^WARNING"
 git -C /repo apply $out/patch.diff || { echo "patch does not apply to /repo"; exit 1; }
 for p in $prop "$@"; do
-  (cd /verif && python3 check.py $p quick 2>&1 | grep -v "^WARNING" | cut -c1-330 | head -5)
+  (cd /verif && python3 check.py $p quick 2>&1 | grep -v "^WARNING" | cut -c1-330 | grep -E "quick seed|VIOLATION|KNOWN-FINDING|^  (tie|proof|harness)" | head -8)
 done
 git -C /repo checkout -- .
 # evidence written from a mutated tree is not evidence: restore the committed files
